@@ -23,7 +23,7 @@ func ruleFMT1(c *Ctx) {
 	}
 	reach := w.reachable([]*ssa.Function{entry})
 	table := map[string]panicClass{
-		"pp.doFormat/r": {"reraise", "doFormat's recover converts ErrStringLimit into the returned error and re-raises anything else", func(c *Ctx, ps panicSite) (bool, string) {
+		"pp.doFormat/recovered-value": {"reraise", "doFormat's recover converts ErrStringLimit into the returned error and re-raises anything else", func(c *Ctx, ps panicSite) (bool, string) {
 			return premiseFormatRecover(c)
 		}},
 		"formatter.fmtInteger/fmt:_unknown_base;_can't": {"unreachable", "every call passes a literal base in {2, 8, 10, 16}", func(c *Ctx, ps panicSite) (bool, string) {
@@ -77,6 +77,11 @@ func premiseFormatRecover(c *Ctx) (bool, string) {
 	if !ok {
 		return false, "deferred call is not a function literal"
 	}
+	// the (single, named) error result of doFormat
+	var resultObj types.Object
+	if fd.Type.Results != nil && len(fd.Type.Results.List) == 1 && len(fd.Type.Results.List[0].Names) == 1 {
+		resultObj = p.TypesInfo.Defs[fd.Type.Results.List[0].Names[0]]
+	}
 	rec := containsNode(lit, func(n ast.Node) bool {
 		call, ok := n.(*ast.CallExpr)
 		return ok && IsBuiltinCall(p, call, "recover")
@@ -88,7 +93,11 @@ func premiseFormatRecover(c *Ctx) (bool, string) {
 		}
 		return containsNode(is.Body, func(m ast.Node) bool {
 			as, ok := m.(*ast.AssignStmt)
-			return ok && len(as.Lhs) == 1 && w.Src(as.Lhs[0]) == "err"
+			if !ok || len(as.Lhs) != 1 {
+				return false
+			}
+			id, ok := as.Lhs[0].(*ast.Ident)
+			return ok && resultObj != nil && p.TypesInfo.Uses[id] == resultObj
 		}) && terminates(is.Body)
 	})
 	rer := containsNode(lit, func(n ast.Node) bool {
@@ -96,7 +105,7 @@ func premiseFormatRecover(c *Ctx) (bool, string) {
 		return ok && IsBuiltinCall(p, call, "panic")
 	})
 	// err must be a named result
-	named := fd.Type.Results != nil && len(fd.Type.Results.List) == 1 && len(fd.Type.Results.List[0].Names) == 1 && fd.Type.Results.List[0].Names[0].Name == "err"
+	named := resultObj != nil
 	if !(rec && conv && rer && named) {
 		return false, "doFormat does not defer `recover → (ErrStringLimit → err) else re-panic` with a named error result"
 	}
@@ -282,10 +291,46 @@ func ruleFMT3(c *Ctx) {
 func caseTable(w *World, p *packages.Package, fd *ast.FuncDecl, tagName string, subst map[string]string) map[string]string {
 	out := map[string]string{}
 	done := false
+	// tagName "verb": the function's parameter of type rune (whatever it is called)
+	isTag := func(e ast.Expr) bool {
+		id, ok := ast.Unparen(e).(*ast.Ident)
+		if !ok {
+			return false
+		}
+		if tagName == "flag-char" {
+			return true // chosen by its case constants, see below
+		}
+		if tagName != "verb" {
+			return id.Name == tagName
+		}
+		o := p.TypesInfo.Uses[id]
+		for _, f := range fd.Type.Params.List {
+			for _, nm := range f.Names {
+				if p.TypesInfo.Defs[nm] == o && types.TypeString(o.Type(), nil) == "rune" {
+					return true
+				}
+			}
+		}
+		return false
+	}
 	ast.Inspect(fd.Body, func(n ast.Node) bool {
 		sw, ok := n.(*ast.SwitchStmt)
-		if !ok || sw.Tag == nil || done || w.Src(sw.Tag) != tagName {
+		if !ok || sw.Tag == nil || done || !isTag(sw.Tag) {
 			return true
+		}
+		if tagName == "flag-char" {
+			// the switch over the flag characters: has a case for '#'
+			has := false
+			for _, cs := range sw.Body.List {
+				for _, e := range cs.(*ast.CaseClause).List {
+					if k, ok := ConstInt(p, e); ok && k == '#' {
+						has = true
+					}
+				}
+			}
+			if !has {
+				return true
+			}
 		}
 		done = true
 		for _, cs := range sw.Body.List {
@@ -325,21 +370,21 @@ var fmtNearPorts = map[string]struct {
 	tengo, ref []string
 	why        string
 }{
-	"formatter.writePadding": {[]string{"f.zero"}, []string{"zero", "minus"}, "newer fmt ignores the 0 flag when - is set inside writePadding; the port predates it (version skew, flag handling is in doFormat)"},
-	"formatter.fmtInteger":   {[]string{"widPresent"}, []string{"widPresent"}, "same version skew in the zero-padding condition"},
+	"formatter.writePadding": {[]string{"=if _ SelectorExpr ($1 () zero () ) |"}, []string{"zero", "minus"}, "newer fmt ignores the 0 flag when - is set inside writePadding; the port predates it (version skew, flag handling is in doFormat)"},
+	"formatter.fmtInteger":   {[]string{"zero () ) SelectorExpr ($1 () widPresent"}, []string{"widPresent"}, "same version skew in the zero-padding condition"},
 	"formatter.fmtSbx":       {nil, nil, "only the limit guard differs"},
-	"formatter.fmtC":         {[]string{"EncodeRune", "f.pad(buf[:w])"}, []string{"AppendRune"}, "utf8.AppendRune did not exist when the port was made"},
+	"formatter.fmtC":         {[]string{"EncodeRune", "pad () ) SliceExpr"}, []string{"AppendRune"}, "utf8.AppendRune did not exist when the port was made"},
 	"pp.fmtInteger":          {[]string{"MaxRune", "badVerb"}, nil, "the port keeps the `v <= utf8.MaxRune` guard of %q"},
-	"pp.fmtBytes": {[]string{"WriteSingleByte('[')", "range v", "if i > 0", "WriteSingleByte(' ')", "p.fmtInteger(uint64(c), unsigned, verb)", "WriteSingleByte(']')"}, []string{"printValue"},
+	"pp.fmtBytes": {[]string{"writeByte () ) '[' ()", "range:=", "if _ bin< (0 ()", "writeByte () ) ' ' ()", "fmtInteger () ) call (uint64", "writeByte () ) ']' ()"}, []string{"printValue"},
 		"other verbs: fmt falls back to reflection, which formats the bytes one by one as integers; the port's default arm does that directly"},
-	"pp.doFormat": {[]string{"defer func()", "p.fmt.zero = !p.fmt.minus", "p.fmt.zero = false", "if c == 'v'", "UndefinedValue.String()", "arg.TypeName()", "return nil"},
+	"pp.badVerb": {[]string{"arg () ) String ()", "UndefinedValue () String ()"}, []string{"TypeOf", "IsValid", "Type ()", "printValue", "nilAngleString", "'=' ()"}, "objects print through String(); there is no reflect.Value (the visible difference is the listed finding diverges/bad-verb-shows-value)"},
+	"intFromArg": {[]string{"DeclStmt", "ToInt64", "call (int () $", "if _ call (tooLarge", "() 0 () ) |"}, []string{"TypeAssertExpr", "un! ($5", "switch assign:=", "=case", "case Int ()", "case Uint ()", "SelectorExpr ($6 () Int ()", "SelectorExpr ($6 () Uint ()", "bin== (call (int64", "bin&& (bin<= (0", "assign= ($4 () call (int ()", "assign= ($5 () true ()", "tooLarge", "assign= ($4 () 0 ()"},
+		"the argument is converted with ToInt64 instead of a type switch over Go's integer kinds (the visible difference is the listed finding diverges/star-arg-accepts-non-int)"},
+	"pp.doFormat": {[]string{"=defer", "zero () ) un! (", "zero () ) false ()", "'v' () ) |", "UndefinedValue () String ()", "TypeName ()", "ReturnStmt (nil ()"},
 		[]string{"zero () ) true", "switch _ $", "wrappedErrs", "fallthrough", "'w' ()", "=case 'v' () |", "nilAngleString", "TypeOf"},
 		"doPrintf of a newer fmt: %w bookkeeping, '0' after '-' handled in the flag switch, objects print through TypeName()/String(); the recover wrapper and the error result are the port's"},
 	"pp.badArgNum":  {nil, nil, "writes go through pp's Write* methods"},
 	"pp.missingArg": {nil, nil, "writes go through pp's Write* methods"},
-	"pp.badVerb":    {[]string{"p.arg.String()", "UndefinedValue"}, []string{"TypeOf", "IsValid", "Type ()", "printValue", "nilAngleString", "'=' ()"}, "objects print through String(); there is no reflect.Value (the visible difference is the listed finding diverges/bad-verb-shows-value)"},
-	"intFromArg": {[]string{"num64", "tooLarge(num)", "num = 0"}, []string{"TypeAssertExpr", "un! ($5", "switch assign:=", "=case", "case Int ()", "case Uint ()", "SelectorExpr ($6 () Int ()", "SelectorExpr ($6 () Uint ()", "bin== (call (int64", "bin&& (bin<= (0", "assign= ($4 () call (int ()", "assign= ($5 () true ()", "tooLarge", "assign= ($4 () 0 ()"},
-		"the argument is converted with ToInt64 instead of a type switch over Go's integer kinds (the visible difference is the listed finding diverges/star-arg-accepts-non-int)"},
 }
 
 func ruleFMT4(c *Ctx) {
@@ -401,7 +446,7 @@ func ruleFMT4(c *Ctx) {
 	if md == nil || rd == nil {
 		c.anchor("doFormat / fmt's doPrintf")
 	} else {
-		a, b := caseTable(w, p, md, "c", sub), caseTable(w, ref, rd, "c", sub)
+		a, b := caseTable(w, p, md, "flag-char", sub), caseTable(w, ref, rd, "flag-char", sub)
 		// '0' and '-' are not compared: newer fmt resolves their interaction later (in
 		// the padding code) instead of in the parser - a version skew, not a defect
 		for _, ch := range []string{"35", "43", "32"} { // # + space
@@ -498,10 +543,16 @@ func checkNearPorts(c *Ctx, p, ref pkgT, refPkg string, table map[string]struct 
 			src := w.Src(s.Node)
 			ok := false
 			for _, g := range portGuards {
-				ok = ok || strings.Contains(src, g)
+				ok = ok || strings.Contains(s.Text, g) || strings.Contains(src, g)
 			}
+			// markers are matched on the canonical form, which does not
+			// mention what the locals are called
 			for _, m := range tab.tengo {
-				ok = ok || strings.Contains(src, m)
+				if strings.HasPrefix(m, "=") {
+					ok = ok || strings.TrimSpace(s.Text) == m[1:]
+				} else {
+					ok = ok || strings.Contains(s.Text, m)
+				}
 			}
 			if !ok {
 				probs = append(probs, fmt.Sprintf("statement without counterpart `%.80s` (%s)", src, w.Site(s.Node)))
@@ -629,7 +680,23 @@ func ruleFMT7(c *Ctx) {
 	prelude := map[string]string{}
 	ast.Inspect(mf.Body, func(nd ast.Node) bool {
 		sw, ok := nd.(*ast.SwitchStmt)
-		if !ok || sw.Tag == nil || w.Src(sw.Tag) != "verb" {
+		if !ok || sw.Tag == nil {
+			return true
+		}
+		// the switch on the verb parameter (the rune parameter, whatever it is called)
+		tid, isId := ast.Unparen(sw.Tag).(*ast.Ident)
+		if !isId {
+			return true
+		}
+		isVerb := false
+		for _, f := range mf.Type.Params.List {
+			for _, nm := range f.Names {
+				if p.TypesInfo.Defs[nm] == p.TypesInfo.Uses[tid] && types.TypeString(p.TypesInfo.Defs[nm].Type(), nil) == "rune" {
+					isVerb = true
+				}
+			}
+		}
+		if !isVerb {
 			return true
 		}
 		for _, cl := range sw.Body.List {
